@@ -86,7 +86,8 @@ class SQLParser(Parser):
     def set(self, p):
         expr = p.expr
         if not (isinstance(expr, BinaryOperation) and expr.op == '=' and isinstance(expr.args[0], Identifier)):
-            raise ParsingException(f'Expected "SET name = value", got "SET {expr}"')
+            # the expression is not printed: printing recurses over the tree (a long operator chain raised RecursionError here)
+            raise ParsingException(f'Expected "SET name = value", got "SET <{type(expr).__name__}>"')
         return Set(name=expr.args[0], value=expr.args[1])
 
     @_('SET id identifier')
